@@ -1,4 +1,88 @@
-import FsDb.Spec.Iso
-/-! # C09 (theorems under construction) -/
+import FsDb.Proofs.Refine
+import FsDb.Proofs.SpecInv
+/-!
+# C09 — Garbage collection and cleanup never change what anyone can read
+-/
 namespace FsDb.C09
+open FsDb Spec
+
+theorem spec_get_gc (s : State) (t : Nat) (k : Key) : Spec.get (Spec.step s .gc).1 t k = Spec.get s t k := by
+  show Spec.get (if s.open_.isEmpty then { s with clock := s.clock + 1 } else s) t k = _
+  split <;> rfl
+
+theorem spec_keys_gc (s : State) (t : Nat) : Spec.getKeys (Spec.step s .gc).1 t = Spec.getKeys s t := by
+  show Spec.getKeys (if s.open_.isEmpty then { s with clock := s.clock + 1 } else s) t = _
+  split <;> rfl
+
+/-- Running the collector (at any reachable state, i.e. any position of any history, with any
+    number of open transactions of any age) changes no result of any read by anyone, at any
+    isolation level or outside transactions: Get and GetKeys answer the same immediately before
+    and immediately after. -/
+theorem C09_gc_invisible_now {c : Sys} {s : State} (h : R c s) (t : Nat) (k : Key) :
+    (c.gc).1.get t k = c.get t k ∧ (c.gc).1.getKeys t = c.getKeys t := by
+  have h' := (step_gc h).2
+  exact ⟨by rw [get_eq h', get_eq h, spec_get_gc], by rw [getKeys_eq h', getKeys_eq h, spec_keys_gc]⟩
+
+/-- the same for background cleanup (`drain` runs every pending delete job) -/
+theorem C09_cleanup_invisible_now {c : Sys} {s : State} (h : R c s) (t : Nat) (k : Key) :
+    (c.drain).1.get t k = c.get t k ∧ (c.drain).1.getKeys t = c.getKeys t := by
+  have h' := (step_drain h).2
+  exact ⟨by rw [get_eq h', get_eq h], by rw [getKeys_eq h', getKeys_eq h]⟩
+
+/-- … and later: after the collector ran, the concrete state is again related to a specification
+    state, which is the *same* specification state when a transaction is open, and differs only in
+    its clock otherwise; so every later history answers as the specification says, and the
+    specification ignores the collector.  (Any number of passes: apply repeatedly.) -/
+theorem C09_gc_invisible_later {c : Sys} {s : State} (h : R c s) :
+    R (c.gc).1 (Spec.step s .gc).1 ∧
+    (s.open_.isEmpty = false → (Spec.step s .gc).1 = s) ∧
+    (Spec.step s .gc).1.hist = s.hist ∧ (Spec.step s .gc).1.open_ = s.open_ ∧ (Spec.step s .gc).1.dom = s.dom := by
+  refine ⟨(step_gc h).2, ?_, ?_, ?_, ?_⟩
+  · intro he
+    show (if s.open_.isEmpty then { s with clock := s.clock + 1 } else s) = s
+    rw [if_neg (by simp [he])]
+  · show (if s.open_.isEmpty then { s with clock := s.clock + 1 } else s).hist = _
+    split <;> rfl
+  · show (if s.open_.isEmpty then { s with clock := s.clock + 1 } else s).open_ = _
+    split <;> rfl
+  · show (if s.open_.isEmpty then { s with clock := s.clock + 1 } else s).dom = _
+    split <;> rfl
+
+/-- for every history with collector passes and cleanup inserted at any positions the concrete
+    model answers what the specification answers — and the specification's answer to a collector
+    pass or a cleanup is always `ok` and its state keeps `hist`, `open_` and `dom` -/
+theorem C09_refinement_with_gc (ops : List Op) (hops : ∀ op ∈ ops, op.core = true) :
+    (({} : Sys).run ops).2 = (Spec.run {} ops).2 := Refine.run_init ops hops
+
+/-- The collector never removes a content that some permitted read could still return: after a
+    pass, whatever version `core.Get` hands to any registered reader (or to an autocommit caller)
+    still has its content record, with the content it was written with. -/
+theorem C09_no_live_content_removed {c : Sys} {s : State} (h : R c s) (tx : TxRec) (k : Key) (v : Ver)
+    (hv : (c.gc).1.coreGet tx k = some v) : (c.gc).1.hasContent v.cid = v.val :=
+  let h' := (step_gc h).2
+  h'.inv.stor k v (coreGet_mem h'.inv tx k hv)
+
+/-- the horizon is never a version number (the side condition of C18_collect_lookup), in every
+    reachable state -/
+theorem C09_horizon_not_version {c : Sys} {s : State} (h : R c s) (k : Key) :
+    ∀ v ∈ c.main k, v.seq ≠ gcHz c := by
+  intro v hv
+  have hva := h.inv.main_sub_all hv
+  unfold gcHz
+  cases hh : c.reg.head? with
+  | none => have := (h.inv.bounds k v hva).2.1; simp only; omega
+  | some tx =>
+    have htx : tx ∈ c.reg := by
+      cases hreg : c.reg with
+      | nil => rw [hreg] at hh; cases hh
+      | cons a rs => rw [hreg] at hh; simp at hh; subst hh; simp
+    exact h.inv.beginNotVer tx htx k v hva
+
+/-- non-vacuity: a snapshot reader keeps its version across two collector passes (on the
+    specification by evaluation; the concrete model answers the same by `C09_refinement_with_gc`) -/
+example :
+    (Spec.run {} [.set 0 "k" 1, .begin 1 .ser, .set 0 "k" 2, .set 0 "k" 3, .gc, .get 1 "k", .gc, .drain,
+      .get 1 "k", .get 0 "k", .rollback 1, .gc, .get 0 "k"]).2
+    = [.ok, .ok, .ok, .ok, .ok, .val 1, .ok, .ok, .val 1, .val 3, .ok, .ok, .val 3] := by decide
+
 end FsDb.C09
